@@ -115,7 +115,11 @@ def multiprocessing_run(
             os.makedirs(dir_to_use)
 
         # Create mp data file
-        with open(mp_log_path, 'w') as mp_file:
+        #    The journal is written under a temporary name and moved into place once it is complete. A run that is
+        #    interrupted while the journal is being written then leaves no journal (the next call starts fresh) rather
+        #    than a partial one (which the restart branch below can not parse, or parses into a smaller study).
+        mp_log_tmp_path = mp_log_path + '.tmp'
+        with open(mp_log_tmp_path, 'w') as mp_file:
             mp_file.write(f'TidalPy v{version} - Multiprocessor Study: {study_name}.\n')
             date_time_str = start_time.strftime('%Y/%m/%d, %H:%M:%S')
             mp_file.write(f'Study started on: {date_time_str}.\n')
@@ -132,6 +136,7 @@ def multiprocessing_run(
                     f'{input_name}:-:{input_nice_name}:;:{input_start}:;:{input_end}:;:{input_scale}:;:{input_must_include}:;:{input_n}\n'
                     )
             mp_file.write('------------\n')
+        os.replace(mp_log_tmp_path, mp_log_path)
     else:
         # Study is being restarted. Some of the inputs may have already been completed.
         # We need to use exactly the same inputs as the previous study(ies) so, to be safe, ignore the user input and
